@@ -1,5 +1,5 @@
 //! C02: tamper evidence of the manifest store bytes.
-//! A case names a store recipe {name, shape: single|parent, src: "hex:<jpeg bytes>"} and an operation:
+//! A case names a store recipe {name, shape: single|parent|thumbs, src: "hex:<jpeg bytes>"} and an operation:
 //!   op "prepare": build the store (sign a small JPEG; for shape "parent" sign once, then sign a second asset that
 //!                 takes the first signed asset as parentOf ingredient), both embedded and as a sidecar; cached under
 //!                 <build>/cases/c02_assets/<name>.{emb,side,c2pa}; out: embedded asset length, offset of the
@@ -40,7 +40,7 @@ fn find(hay: &[u8], needle: &[u8]) -> Option<usize> {
     (0..=hay.len() - needle.len()).find(|&i| &hay[i..i + needle.len()] == needle)
 }
 
-fn sign_one(src: &[u8], title: &str, parent: Option<&[u8]>, no_embed: bool) -> Result<(Vec<u8>, Vec<u8>), String> {
+fn sign_one(src: &[u8], title: &str, parent: Option<&[u8]>, no_embed: bool, thumbs: bool) -> Result<(Vec<u8>, Vec<u8>), String> {
     let extra = json!({"builder": {"thumbnail": {"enabled": false}}}).to_string();
     let ctx = e2e::context(Some(&extra));
     let signer = e2e::signer("ed25519");
@@ -54,6 +54,16 @@ fn sign_one(src: &[u8], title: &str, parent: Option<&[u8]>, no_embed: bool) -> R
         // the source stream (the signed parent asset) becomes the parentOf ingredient, with a c2pa.opened action
         b.set_intent(c2pa::BuilderIntent::Edit);
     }
+    if thumbs {
+        // a claim thumbnail and a component ingredient that carries its own thumbnail (embedded-file assertions)
+        b.set_thumbnail("image/jpeg", &mut Cursor::new(src.to_vec())).map_err(|e| format!("thumbnail: {}", err_class(&e)))?;
+        b.add_resource("ithumb", Cursor::new(src.to_vec())).map_err(|e| format!("resource: {}", err_class(&e)))?;
+        b.add_ingredient_from_stream(
+            json!({"title": "component", "relationship": "componentOf",
+                   "thumbnail": {"format": "image/jpeg", "identifier": "ithumb"}}).to_string(),
+            "image/jpeg", &mut Cursor::new(src.to_vec()))
+            .map_err(|e| format!("ingredient: {}", err_class(&e)))?;
+    }
     let src = parent.unwrap_or(src);
     b.set_no_embed(no_embed);
     let mut input = Cursor::new(src.to_vec());
@@ -64,15 +74,16 @@ fn sign_one(src: &[u8], title: &str, parent: Option<&[u8]>, no_embed: bool) -> R
 
 fn build(recipe: &Value) -> Result<StoreAsset, String> {
     let src = hex::decode(recipe["src"].as_str().unwrap_or("").trim_start_matches("hex:")).map_err(|e| e.to_string())?;
-    let parent = if recipe["shape"].as_str() == Some("parent") {
-        Some(sign_one(&src, "parent asset", None, false)?.0)
+    let thumbs = recipe["shape"].as_str() == Some("thumbs");
+    let parent = if recipe["shape"].as_str() == Some("parent") || thumbs {
+        Some(sign_one(&src, "parent asset", None, false, false)?.0)
     } else {
         None
     };
-    let (emb, _) = sign_one(&src, "active asset", parent.as_deref(), false)?;
+    let (emb, _) = sign_one(&src, "active asset", parent.as_deref(), false, thumbs)?;
     let store = c2pa::jumbf_io::load_jumbf_from_stream("image/jpeg", &mut Cursor::new(&emb)).map_err(|e| err_class(&e))?;
     let off = find(&emb, &store).ok_or("store bytes are not contiguous in the asset")?;
-    let (side_asset, side) = sign_one(&src, "active asset", parent.as_deref(), true)?;
+    let (side_asset, side) = sign_one(&src, "active asset", parent.as_deref(), true, thumbs)?;
     Ok(StoreAsset { emb, off, store, side_asset, side })
 }
 
